@@ -1,5 +1,5 @@
 (* REGENERATED from src/mxlpy/parallel.py (_pickle_save, _load_or_run, _pickle_load, _pickle_name, Cache,
    parallelise) and src/mxlpy/scan.py by harness/c19.py; do not edit.  An unrecognised shape yields
-   SaveUnknown / false, which breaks C19_facts_pinned. *)
-From CacheFS Require Import CacheFS.
-Definition gen_cache_facts : cache_facts := mkCacheFacts SaveTempReplace true true.
+   SaveUnknown / false / NameUnknown, which breaks C19_facts_pinned. *)
+From CacheFS Require Import CacheKeys CacheFS.
+Definition gen_cache_facts : cache_facts := mkCacheFacts SaveTempReplace true true NameRepr.
